@@ -233,9 +233,15 @@ impl Listener {
                         errorfds.as_mut_ptr(),
                         &mut timeout,
                     );
-                    if ret != EINTR && ret != EAGAIN {
-                        break;
+                    if ret < 0 {
+                        // interrupted by a signal: wait for the rest of the time (select has updated `timeout`)
+                        let err = std::io::Error::last_os_error();
+                        match err.raw_os_error() {
+                            Some(e) if e == EINTR || e == EAGAIN => continue,
+                            _ => return Err(err).map_err(map_context!()),
+                        }
                     }
+                    break;
                 }
                 if !FD_ISSET(fd, readfs.as_mut_ptr()) {
                     return Err(context!(ErrorKind::Timeout));
